@@ -1,0 +1,7 @@
+//go:build !verif
+
+package server
+
+import "google.golang.org/grpc"
+
+func simDialOptions() []grpc.DialOption { return nil }
